@@ -34,6 +34,7 @@ type Engine struct {
 	loopBlocks map[*ssa.BasicBlock]map[*ssa.BasicBlock]bool
 	verbose bool
 	specDone map[string]bool
+	prune   func(st *State, cond string) (bool, bool)
 	axiomsDone bool
 }
 
@@ -159,9 +160,9 @@ func (e *Engine) assumeTyped(st *State, v Val) {
 			st.assume(fmt.Sprintf("(and (<= 0 %s) (<= %s %s))", v.T, v.T, mx))
 		}
 	case SRef:
-		st.assume(fmt.Sprintf("(or (= %s rnil) (select %s %s))", v.T, st.alive, v.T))
+		st.assume(fmt.Sprintf("(or (= %s rnil) (< (stamp %s) %s))", v.T, v.T, st.alive))
 	case SSlice:
-		st.assume(fmt.Sprintf("(and (<= 0 (soff %s)) (<= 0 (slen %s)) (<= (slen %s) (scap %s)) (=> (= (sarr %s) rnil) (= (scap %s) 0)) (or (= (sarr %s) rnil) (select %s (sarr %s))))", v.T, v.T, v.T, v.T, v.T, v.T, v.T, st.alive, v.T))
+		st.assume(fmt.Sprintf("(and (<= 0 (soff %s)) (<= 0 (slen %s)) (<= (slen %s) (scap %s)) (=> (= (sarr %s) rnil) (= (scap %s) 0)) (or (= (sarr %s) rnil) (< (stamp (sarr %s)) %s)))", v.T, v.T, v.T, v.T, v.T, v.T, v.T, v.T, st.alive))
 	case SBytes:
 		e.bytesFacts(st, v.T)
 		if b, ok := v.Typ.Underlying().(*types.Basic); ok && b.Info()&types.IsString != 0 {
@@ -180,6 +181,12 @@ func (e *Engine) heapStore(st *State, name string, idx, val string) {
 	st.assume(eq(nn, store(cur, idx, val)))
 	st.heap[name] = nn
 	st.markMod(name)
+	if st.dry != nil {
+		if st.dry.mod.bases[name] == nil {
+			st.dry.mod.bases[name] = map[string]bool{}
+		}
+		st.dry.mod.bases[name][idx] = true
+	}
 }
 
 func (e *Engine) heapSet(st *State, name string, termv string) {
@@ -188,6 +195,9 @@ func (e *Engine) heapSet(st *State, name string, termv string) {
 	st.assume(eq(nn, termv))
 	st.heap[name] = nn
 	st.markMod(name)
+	if st.dry != nil {
+		st.dry.mod.whole[name] = true
+	}
 }
 
 func (e *Engine) heapHavoc(st *State, name string) string {
@@ -195,6 +205,9 @@ func (e *Engine) heapHavoc(st *State, name string) string {
 	st.declare(nn, e.heapSort(name))
 	st.heap[name] = nn
 	st.markMod(name)
+	if st.dry != nil {
+		st.dry.mod.whole[name] = true
+	}
 	return nn
 }
 
@@ -292,10 +305,10 @@ func (e *Engine) havocStructAt(st *State, r string, t types.Type) {
 // allocObject allocates a fresh heap object of type t (struct or array) and returns its ref.
 func (e *Engine) allocRef(st *State, prefix string) string {
 	r := e.freshConst(st, prefix, SRef)
-	st.assume(fmt.Sprintf("(and (not (= %s rnil)) (not (select %s %s)))", r, st.alive, r))
-	na := e.d.fresh("alive")
-	st.declare(na, "(Array Ref Bool)")
-	st.assume(eq(na, store(st.alive, r, "true")))
+	st.assume(fmt.Sprintf("(and (not (= %s rnil)) (= (stamp %s) %s))", r, r, st.alive))
+	na := e.d.fresh("now")
+	st.declare(na, SInt)
+	st.assume(fmt.Sprintf("(= %s (+ %s 1))", na, st.alive))
 	st.alive = na
 	st.fresh = append(st.fresh, r)
 	return r
@@ -311,8 +324,7 @@ func (e *Engine) allocObject(st *State, t types.Type, prefix string) Val {
 			// array of structs: elements are interior refs; zero-init not modelled element-wise
 			st.note("array-of-struct allocation: element zero-initialisation not modelled")
 		} else {
-			es := e.d.SortOf(u.Elem())
-			h := e.d.ElemHeap(es)
+			h := e.d.ElemHeapT(u.Elem())
 			e.heapStore(st, h, r, e.d.Zero(e.d.SortOf(t), t))
 		}
 	default:
@@ -357,8 +369,7 @@ func (e *Engine) load(st *State, a Val, pos token.Pos) Val {
 			return term(e.loadStruct(st, a.T, et), e.d.SortOf(et), et)
 		}
 		if isArray(et) {
-			es := e.d.SortOf(elemType(et))
-			return term(sel(st.heapGet(e.d.ElemHeap(es)), a.T), e.d.SortOf(et), et)
+			return term(sel(st.heapGet(e.d.ElemHeapT(elemType(et))), a.T), e.d.SortOf(et), et)
 		}
 		s := e.d.SortOf(et)
 		v := term(sel(st.heapGet(e.d.BoxHeap(s)), a.T), s, et)
@@ -400,8 +411,7 @@ func (e *Engine) store(st *State, a Val, v Val) {
 			return
 		}
 		if isArray(et) {
-			es := e.d.SortOf(elemType(et))
-			e.heapStore(st, e.d.ElemHeap(es), a.T, e.asTerm(st, v))
+			e.heapStore(st, e.d.ElemHeapT(elemType(et)), a.T, e.asTerm(st, v))
 			return
 		}
 		s := e.d.SortOf(et)
@@ -521,8 +531,20 @@ func (e *Engine) oblige(st *State, class string, pos token.Pos, detail string, g
 	if detail != "" {
 		base += "[" + detail + "]"
 	}
+	if strings.HasPrefix(class, "safety:") {
+		// the same goal already checked earlier on this path (facts only grow): implied
+		key := "ob:" + goal
+		if st.typed[key] {
+			return
+		}
+		st.typed[key] = true
+	}
 	ob := &Oblig{Name: base, Class: class, Pos: p, Goal: goal, Detail: detail}
 	st.items = append(st.items, Item{Kind: ItOblig, Ob: ob})
+	// assert-then-assume: later obligations on this path are checked under "no earlier failure"
+	if class != "canary" && goal != "false" {
+		st.assume(goal)
+	}
 }
 
 func (e *Engine) obPrefix(st *State) string {
@@ -755,7 +777,7 @@ func (e *Engine) bytesFacts(st *State, b string) {
 func (e *Engine) mkSub(st *State, t types.Type, i int, base string) string {
 	name := e.d.SubRef(t, i)
 	r := app(name, base)
-	e.fact(st, "sub:"+r, fmt.Sprintf("(and (= (%s_inv %s) %s) (not (= %s rnil)) (= (select %s %s) (select %s %s)))", name, r, base, r, "alive0", r, "alive0", base))
+	e.fact(st, "sub:"+r, fmt.Sprintf("(and (= (%s_inv %s) %s) (not (= %s rnil)) (= (stamp %s) (stamp %s)))", name, r, base, r, r, base))
 	return r
 }
 
